@@ -170,9 +170,15 @@ struct Runner {
         }
         return -1;
     }
+    // label index as the model stores it: the smallest index whose label compares equal (label types whose values all compare
+    // equal - an empty class - have a single model value)
+    static double canonLab(double idx) {
+        if constexpr (kind == LABELED) return (double)alphaIdx(Alpha<L>::get((int)idx));
+        else return idx;
+    }
     double valArg(const sim::Op &op) const {
         if constexpr (kind == SIMPLE) return 0;
-        else if constexpr (kind == LABELED) return (double)modn(op.x, ALPHA_N);
+        else if constexpr (kind == LABELED) return canonLab((double)modn(op.x, ALPHA_N));
         else if constexpr (kind == MULTI) return (double)multArg(op.x, extremeM);
         else return weightArg(op.x, exactW, nonneg);
     }
@@ -843,7 +849,7 @@ struct Runner {
                     if constexpr (kind == SIMPLE) B->addEdge(ca, cb);
                     else if constexpr (kind == LABELED) {
                         if (r.pm(300)) {
-                            B->addEdge(ca, cb, labelOf((double)r.below(ALPHA_N)));
+                            B->addEdge(ca, cb, labelOf(canonLab((double)r.below(ALPHA_N))));
                             if (directed) B->setEdgeLabel(ca, cb, labelOf(v)); else B->setEdgeLabel(cb, ca, labelOf(v));
                         } else B->addEdge(ca, cb, labelOf(v));
                     } else if constexpr (kind == MULTI) {
@@ -877,7 +883,7 @@ struct Runner {
                     int d = (int)r.below(4);
                     if (d == 0 && !absent.empty()) {
                         Key k = absent[r.below(absent.size())];
-                        double v = kind == SIMPLE ? 0 : (kind == LABELED ? (double)r.below(ALPHA_N) : (kind == MULTI ? 1.0 + (double)r.below(3) : 1.25));
+                        double v = kind == SIMPLE ? 0 : (kind == LABELED ? canonLab((double)r.below(ALPHA_N)) : (kind == MULTI ? 1.0 + (double)r.below(3) : 1.25));
                         if (kind == WEIGHTED) mb.absAdded += 1.25L;
                         if constexpr (kind == SIMPLE) B->addEdge(k.first, k.second);
                         else if constexpr (kind == LABELED) B->addEdge(k.first, k.second, labelOf(v));
@@ -897,7 +903,11 @@ struct Runner {
                     if (d == 2 && !present.empty() && kind != SIMPLE) {
                         Key k = present[r.below(present.size())];
                         MEdge *e = mb.find(k.first, k.second);
-                        if constexpr (kind == LABELED) { double v = (double)modn((int64_t)e->val + 1 + (int64_t)r.below(ALPHA_N - 1), ALPHA_N); B->setEdgeLabel(k.first, k.second, labelOf(v)); e->val = v; }
+                        if constexpr (kind == LABELED) {
+                            double v = canonLab((double)modn((int64_t)e->val + 1 + (int64_t)r.below(ALPHA_N - 1), ALPHA_N));
+                            if (v == e->val) continue; // this label type has no second value: pick another kind of difference
+                            B->setEdgeLabel(k.first, k.second, labelOf(v)); e->val = v;
+                        }
                         else if constexpr (kind == MULTI) {
                             const double step = 1 + (double)r.below(3);
                             const double v = e->val > 1000 ? e->val - step : e->val + step; // stays inside the 32-bit domain
@@ -963,7 +973,7 @@ struct Runner {
     Cat catOfOp(const std::string &k) const {
         if (k == "reject") return REJECT;
         if (k == "copy" || k == "assign" || k == "replica") return EQ;
-        if (k == "persist" || k == "loadraw" || k == "openfail" || k == "bigio") return plan.profile == "C14" ? IO14 : (plan.profile == "C15" ? IO15 : IO13);
+        if (k == "persist" || k == "loadraw" || k == "openfail" || k == "bigio" || k == "earlyio") return plan.profile == "C14" ? IO14 : (plan.profile == "C15" ? IO15 : IO13);
         if (k == "cutall") return IO15;
         if (k == "alg") return UB;
         return STRUCT;
@@ -988,7 +998,7 @@ struct Runner {
             else if (op.k == "replica") doReplica(op);
             else if (op.k == "reject") doReject(op);
             else if (op.k == "persist") doPersist(op);
-            else if (op.k == "openfail" || op.k == "loadraw" || op.k == "cutall" || op.k == "bigio") doIo(op);
+            else if (op.k == "openfail" || op.k == "loadraw" || op.k == "cutall" || op.k == "bigio" || op.k == "earlyio") doIo(op);
             else if (op.k == "alg") doAlg(op);
             else if (op.k == "aslabeled") doAsLabeled(op);
             else res.probes.inc("unknown_op");
@@ -1017,10 +1027,13 @@ struct Runner {
         if (plan.c("nmax", 6) == 12) res.probes.inc("runs_medium_size_bound");
         if (m.n == 0) res.probes.inc("size0_start");
         if (m.n == 1) res.probes.inc("size1_start");
-        try {
-            sweep(*g, m, "init");
-        } catch (const std::exception &ex) { mismatch(STRUCT, "unexpected_exception", ex.what()); }
-        settle();
+        if (plan.c("coldstart", 0)) { res.probes.inc("runs_cold_start"); sweepPending = true; } // no observer before the readers start
+        else {
+            try {
+                sweep(*g, m, "init");
+            } catch (const std::exception &ex) { mismatch(STRUCT, "unexpected_exception", ex.what()); }
+            settle();
+        }
         for (size_t i = 0; i < plan.ops.size() && !stop; ++i) {
             step = (int)i + 1;
             exec(plan.ops[i]);
